@@ -38,6 +38,15 @@ Contract clauses, evaluated after EVERY step of every history (F = ``Connection.
                   idle in the pool since before the failure is not reused);  D3: if no ``d`` ever happened and no reset-path
                   fault, no DBAPI connection was opened or closed at all (non-disconnect errors leave the pool untouched).
 
+Fault SEQUENCES: a run carries up to three faults.  The k-fault runs are derived from every (k-1)-fault run that passed by
+planting one more fault at every LATER DBAPI call position of that run — which includes the calls of the recovery path the
+earlier faults opened up: the rollback that unblocks, the ``connect`` of the transparent reconnect (a reconnect that fails,
+with either exception class, while the Connection is already invalidated), and the cursor / execute / commit calls on the new
+connection.  Every clause is evaluated at every step regardless of what happened before; in particular B3 / B1 / D3 ("errors
+not classified as disconnects leave the pool untouched", ``connection_invalidated == d``) are demanded of an ordinary error
+that FOLLOWS earlier disconnects, failed reconnects and recoveries on the same Connection, and B2 of a disconnect that follows
+ordinary errors.  ``fired_by_fault_order`` in the coverage block counts the runs per order of fired exception classes.
+
 Scope: see coverage.scope.  Bounded; not a proof.
 """
 import gc
@@ -359,13 +368,38 @@ def run_case(ops, faults, mode, trace=False):
                 skipped=G["skipped"], steps=steps, total_after=L.total - base)
 
 
-def worker(shard, nshards, maxlen, two_fault_len):
+CORE = ("execute", "begin", "commit", "rollback")
+
+
+def fault_depth(ops, mode, two_fault_len, three_fault_len):
+    """how many faults are planted into one run of this history"""
+    if len(ops) <= three_fault_len or (len(ops) == three_fault_len + 1 and mode == "none" and set(ops) <= set(CORE)):
+        return 3
+    return 2 if len(ops) <= two_fault_len else 1
+
+
+def worker(shard, nshards, maxlen, two_fault_len, three_fault_len=0):
     F.quiet()
     gc.collect()
     gc.freeze()
     hs = list(histories(maxlen))[shard::nshards]
     out = dict(runs=0, fired_distinct=0, baseline=0, failures=[], samples=[], skipped=0, by_kind={}, blocked_steps=0,
-               not_fired=0, two_fault_runs=0, histories=len(hs), outcomes={})
+               not_fired=0, two_fault_runs=0, three_fault_runs=0, histories=len(hs), outcomes={}, by_order={})
+
+    def extend(ops, faults, mode, r, depth):
+        """one more fault at every later DBAPI call position of THIS faulted run (ops phase) — recursively up to depth"""
+        if not (r["fired"] and not r["failure"] and not r["skipped"]):
+            return
+        for m in range(faults[-1][0] + 1, r["calls"] + 1):
+            for y in EXCS:
+                fl = faults + [(m, y)]
+                r2 = run_case(ops, fl, mode)
+                out["runs"] += 1
+                out["two_fault_runs" if len(fl) == 2 else "three_fault_runs"] += 1
+                _account(out, ops, fl, mode, r2)
+                if len(fl) < depth:
+                    extend(ops, fl, mode, r2, depth)
+
     for ops in hs:
         base = run_case(ops, [], "none")
         out["runs"] += 1
@@ -380,14 +414,9 @@ def worker(shard, nshards, maxlen, two_fault_len):
                     r = run_case(ops, [(n, x)], mode)
                     out["runs"] += 1
                     _account(out, ops, [(n, x)], mode, r)
-                    if len(ops) <= two_fault_len and r["fired"] and not r["failure"] and not r["skipped"]:
-                        # a second fault at every later call position of THIS faulted run (ops phase)
-                        for m in range(n + 1, r["calls"] + 1):
-                            for y in EXCS:
-                                r2 = run_case(ops, [(n, x), (m, y)], mode)
-                                out["runs"] += 1
-                                out["two_fault_runs"] += 1
-                                _account(out, ops, [(n, x), (m, y)], mode, r2)
+                    depth = fault_depth(ops, mode, two_fault_len, three_fault_len)
+                    if depth > 1:
+                        extend(ops, [(n, x)], mode, r, depth)
     return out
 
 
@@ -399,6 +428,10 @@ def _account(out, ops, faults, mode, r):
         out["fired_distinct"] += 1          # every (history, positions, exceptions, mode) tuple is enumerated exactly once
         kinds = "+".join(k for k, _, _ in r["fired"])
         out["by_kind"][kinds] = out["by_kind"].get(kinds, 0) + 1
+        eff = [(k, x) for k, _, x in r["fired"] if k != "close"]
+        if len(eff) > 1:
+            order = ">".join(("connect:" if k == "connect" else "") + x for k, x in eff)
+            out["by_order"][order] = out["by_order"].get(order, 0) + 1
     else:
         out["not_fired"] += 1
     if r["failure"]:
@@ -412,13 +445,15 @@ def _account(out, ops, faults, mode, r):
 def run(run, tier, seed, args):
     F.quiet()
     maxlen = 4 if tier == "quick" else 5
-    two = 2 if tier == "quick" else 3
+    two = 3 if tier == "quick" else 4
+    three = 3 if tier == "quick" else 4
     procs = default_procs(tier)
     nshards = procs
     t0 = time.time()
-    res = shard_map(worker, nshards, procs, maxlen, two)
-    tot = dict(runs=0, fired_distinct=0, baseline=0, skipped=0, not_fired=0, two_fault_runs=0, histories=0)
+    res = shard_map(worker, nshards, procs, maxlen, two, three)
+    tot = dict(runs=0, fired_distinct=0, baseline=0, skipped=0, not_fired=0, two_fault_runs=0, three_fault_runs=0, histories=0)
     by_kind = {}
+    by_order = {}
     failures = []
     samples = []
     for r in res:
@@ -429,6 +464,8 @@ def run(run, tier, seed, args):
             tot[k] += r[k]
         for k, v in r["by_kind"].items():
             by_kind[k] = by_kind.get(k, 0) + v
+        for k, v in r["by_order"].items():
+            by_order[k] = by_order.get(k, 0) + v
         failures += r["failures"]
         samples += r["samples"]
     # one traced sample written out in full
@@ -440,17 +477,21 @@ def run(run, tier, seed, args):
         rule="every history over the 7 operations (release only after a begin_nested) is run once without fault to count the "
              "DBAPI calls it makes; then once per (call position n, exception in {disconnect-classified, ordinary "
              "OperationalError}, handle_error listener mode in {none, flips is_disconnect, raises, clears "
-             "invalidate_pool_on_disconnect}); for short histories additionally with a second fault at every later call "
-             "position of the faulted run.  A case is non-trivial and counted in distinct_nontrivial when every planned fault "
+             "invalidate_pool_on_disconnect}); for short histories additionally with a second and a third fault, each at every later call "
+             "position of the faulted run it extends (fault sequences, see scope).  A case is non-trivial and counted in distinct_nontrivial when every planned fault "
              "actually fired (read from the ledger); the tuples (history, positions, exceptions, mode) are enumerated once "
              "each, so they are distinct.",
         samples=samples, exhaustive=True,
         scope=f"all operation sequences of length <= {maxlen} over {{execute, begin, begin_nested, commit, rollback, release "
               f"savepoint, close}} on one Connection of a QueuePool(pool_size=2, max_overflow=0) engine with one other pooled "
               f"connection idle since before the history; one fault at every DBAPI call position (cursor / execute / commit / "
-              f"rollback) x 2 exception classes x 4 listener modes; two faults for histories of length <= {two} (second fault at "
-              f"every later position incl. connect / close of the recovery path); pre_ping off",
+              f"rollback) x 2 exception classes x 4 listener modes; fault sequences: two faults for histories of length <= {two}, "
+              f"three faults for histories of length <= {three} (all listener modes) and for histories of length {three + 1} over "
+              f"{list(CORE)} (no listener) - every further fault at every later call position of the run it extends, incl. "
+              f"the connect / cursor / execute / rollback / close calls of the recovery path, x 2 exception classes each (all "
+              f"orders of disconnect / ordinary error); pre_ping off",
         histories=tot["histories"], baseline_runs=tot["baseline"], two_fault_runs=tot["two_fault_runs"],
+        three_fault_runs=tot["three_fault_runs"], fired_by_fault_order=by_order,
         skipped_two_faults_in_one_operation=tot["skipped"], planned_fault_not_reached=tot["not_fired"],
         fired_by_dbapi_call_kinds=by_kind, shards=nshards, processes=procs, enumeration_wall_s=round(time.time() - t0, 1))
     run.assumptions += [
@@ -460,7 +501,7 @@ def run(run, tier, seed, args):
         "after a NON-disconnect fault the transactional follow-up (e.g. a failed commit also requiring rollback()) is not judged; only the clauses B3/C1/D3",
         "a disconnect in cursor() of an execute that had not begun a transaction yet may or may not count as 'in a transaction' (cursor creation precedes autobegin): both answers accepted",
     ]
-    if tot["fired_distinct"] < 2:
+    if tot["fired_distinct"] < 2 or tot["three_fault_runs"] < 2:
         run.crashes.append("vacuity guard: fewer than 2 faults fired")
     report(run, failures)
 
